@@ -11,7 +11,7 @@ from .. import sched as S
 from .. import env
 from ..loop import SimLoop, install_policy, restore_policy
 
-POS_VALUES = [1, 1.0, True, 'a', (1,)]
+POS_VALUES = [1, 1.0, True, 'a', (1,), (), (1, 'a')]      # tuples that equal other calls' whole positional tuples
 KW_NAMES = ['x', 'y', 'z']
 KW_VALUES = [1, 'a', (1,)]
 
@@ -51,7 +51,7 @@ def realise(sig):
 
 def _fresh(v):
     if isinstance(v, tuple):
-        return tuple(list(v))           # a new tuple object
+        return tuple(list(v)) if v else ()           # a new tuple object
     if isinstance(v, str):
         return ''.join(list(v))
     return v
